@@ -41,6 +41,43 @@ def r_filter(prog, R):
             return False
         full = f.call_by_id(c["id"])
         return full is not None and is_var(call_arg(full[2], 0), resp)
+    # the lifetime of every stored entry is bounded by the smallest TTL the response itself carries, whatever its rcode
+    mins = f.calls_to("ares_qcache_calc_minttl")
+    k = "lifetime bounded by the response's own TTLs on every path"
+    exp = [(b, i, el) for b, i, el in f.elements() if el["k"] == "asg" and is_field(el["e"]["l"], "expire_ts")]
+    if not mins or not exp:
+        r.viol(k, f.name, f.loc(f.ln), "ares_qcache_insert_int does not compute the minimum TTL of the response's records")
+    else:
+        eb, ei, eel = exp[0]
+        t = can_reach_from_entry_avoiding(f, eb, ei, lambda e2: e2["k"] == "call" and e2["e"].get("callee") == "ares_qcache_calc_minttl")
+        used = True
+        for mb, mi, mc in mins:
+            h = None
+            blk = mb
+            for j in range(mi + 1, len(blk.els)):
+                e2 = blk.els[j]
+                rr = None
+                if e2["k"] == "asg" and e2["e"]["op"] == "=":
+                    rr, nm = strip(e2["e"].get("r")), path(e2["e"]["l"])
+                elif e2["k"] == "decl":
+                    for v in e2["vars"]:
+                        if v.get("init") is not None and strip(v["init"]).get("k") == "call" and strip(v["init"]).get("id") == mc.get("id"):
+                            rr, nm = strip(v["init"]), v["n"]
+                if rr is not None and rr.get("k") == "call" and rr.get("id") == mc.get("id"):
+                    h = nm
+                    break
+            if h is None:
+                used = False
+            elif h != "ttl":
+                # a separate variable: it must be compared against ttl and assigned to it
+                okc = any(e2["k"] == "asg" and is_var(strip(e2["e"]["l"]), "ttl") and is_var(strip(e2["e"].get("r")), h) for _, _, e2 in f.elements())
+                used = used and okc
+        if t is not None:
+            r.viol(k, f.name, f.loc(eel), "a response can be stored with a lifetime that never looked at the TTLs of its own records (e.g. an NXDOMAIN whose lifetime comes from the SOA alone although it carries a short-lived CNAME): it is replayed after those records have expired", trail=trail_lines(f, t))
+        elif not used:
+            r.viol(k, f.name, f.loc(eel), "the minimum TTL of the response's records is computed but does not limit the stored lifetime")
+        else:
+            r.ok(k, f.loc(eel))
     if from_call_on_resp("rcode", "ares_dns_record_get_rcode"):
         r.ok("rcode-of-response", f.loc(f.ln))
     else:
